@@ -4,6 +4,7 @@ import (
 	"context"
 	"crypto/tls"
 	"encoding/json"
+	"errors"
 	"fmt"
 	"net/http"
 	"time"
@@ -16,6 +17,8 @@ const (
 
 	defaultDataTimeout = 5 * time.Second
 )
+
+var errNotJSONObject = errors.New("response body is not a JSON object")
 
 type ScanResult struct {
 	ScanType string                 `json:"scan"`
@@ -129,6 +132,9 @@ func (c *elasticClient) Get(ctx context.Context, url string) (data map[string]in
 	}
 	defer resp.Body.Close()
 	decoder := json.NewDecoder(resp.Body)
-	err = decoder.Decode(&data)
+	if err = decoder.Decode(&data); err == nil && data == nil {
+		// the body "null" decodes into a nil map without an error
+		err = errNotJSONObject
+	}
 	return
 }
